@@ -434,7 +434,7 @@ func (s *state) runDeltas(cn *conn, m, a, f int, graceExpired bool, lags []int) 
 	seen := 0
 	lastStatus := 0 // the sender's lastSentStatus starts at the zero SyncStatus
 	hung := false
-	wd := time.AfterFunc(20*time.Second, func() { hung = true; cancel(); s.cache.VerifBroadcast() })
+	wd := time.AfterFunc(3*time.Second, func() { hung = true; cancel(); s.cache.VerifBroadcast() })
 	defer wd.Stop()
 	flush := func() error {
 		var env syncproto.Envelope
@@ -478,6 +478,10 @@ func (s *state) runDeltas(cn *conn, m, a, f int, graceExpired bool, lags []int) 
 	vc := syncserver.VerifNewConn(ctx, cancel, cfg, prov, &buf, flush)
 	vc.SendDeltas(s.chain[cn.start])
 	if hung {
+		// The sender neither finished nor disconnected: it is blocked in Next although crumbs it has passed
+		// were not (completely) sent.  Report and stop generating (every further case would wait again).
+		s.fail("sender-stuck", "sender blocked waiting for the next crumb without having sent all deltas / the status it owes", map[string]any{})
+		aborted = true
 		return "hang"
 	}
 	pos := cn.start + prov.calls
@@ -502,6 +506,8 @@ func (s *state) runDeltas(cn *conn, m, a, f int, graceExpired bool, lags []int) 
 	}
 	return fmt.Sprintf("%s|pos=%d|disc=%d|held=0", msgs, s.chain[pos].SequenceNumber, d)
 }
+
+var aborted bool
 
 // ---- generator --------------------------------------------------------------------------------------
 
@@ -738,7 +744,7 @@ func main() {
 		run(h.ReplayLines(), "replay")
 		return
 	}
-	for i := 0; i < h.N; i++ {
+	for i := 0; i < h.N && !aborted; i++ {
 		run(genCase(h), "gen")
 	}
 }
